@@ -259,9 +259,13 @@ def run():
     sout = run_cases(sreqs, label="C17 signed floats")
     for i, s_ in enumerate(signed):
         u = sout[f"u{i}"]["end"]
+        if u.startswith(("discarded:", "fuel:")):
+            continue
         want = ("val:-" + u[4:]) if u.startswith("val:") else None
         for j in range(6):
             got = sout[f"n{i}.{j}"]["end"]
+            if got.startswith(("discarded:", "fuel:")):
+                continue
             if (want is None and got.startswith("val:")) or (want is not None and got != want):
                 ck.reject(f"C17:float:signed:{'zero' if s_ in zeros else 'nonzero'}", f"{sreqs[i * 7 + j]['src']!r} evaluates to {got}; {s_} is {u}, so its negation is {want or 'rejected as well'}",
                           {"src": sreqs[i * 7 + j]["src"], "observed": got, "expected": want, "unsigned": u})
